@@ -27,11 +27,13 @@ use vharness::*;
 
 mod oracle_c01;
 mod oracle_c02;
+mod oracle_c04;
 mod oracle_c05;
 mod oracle_c06;
 mod oracle_c17;
 mod oracle_c07;
 mod oracle_c18;
+mod script_c02;
 mod script_c05;
 mod script_c06;
 mod script_c18;
@@ -1216,7 +1218,8 @@ fn main() {
             // C17: one `edq` record (all getters, compared with the model) per step
             "--queries" => c17_queries = true,
             "--script" => {
-                // scripted sessions (c18: exhaustive character sweep, c05: limit overshoots) instead of generated ones
+                // scripted sessions (c18: exhaustive character sweep, c05: limit overshoots and lists under mode changes,
+                // c02: crossing phrases + Tab + overflow) instead of generated ones
                 script_name = Some(args[i + 1].clone());
                 i += 1;
             }
@@ -1225,7 +1228,11 @@ fn main() {
         i += 1;
     }
     if let Some(name) = &script_name {
-        n_sessions = if name == "c05" { script_c05::n_sessions(thorough) } else { script_c18::n_sessions(thorough) };
+        n_sessions = match name.as_str() {
+            "c05" => script_c05::n_sessions(thorough),
+            "c02" => script_c02::n_sessions(thorough),
+            _ => script_c18::n_sessions(thorough),
+        };
         ops_per = 100_000;
     }
     // panics inside the editor are outcomes, not noise
@@ -1338,12 +1345,14 @@ fn main() {
             n_c01_sessions += 1;
         }
 
-        let mut script18 = script_name.as_ref().filter(|n| *n != "c05").map(|_| script_c18::Script::new(sid, thorough));
+        let mut script18 = script_name.as_ref().filter(|n| *n != "c05" && *n != "c02").map(|_| script_c18::Script::new(sid, thorough));
+        let mut script02 = script_name.as_ref().filter(|n| *n == "c02").map(|_| script_c02::Script::new(sid, thorough, &pool));
         let mut script05 = script_name.as_ref().filter(|n| *n == "c05").map(|_| script_c05::Script::new(sid, thorough));
         for _ in 0..ops_per {
-            let scripted = match (&mut script18, &mut script05) {
-                (Some(sc), _) => Some(sc.next(&s.ed.verif_snapshot())),
-                (_, Some(sc)) => Some(sc.next(&s.ed.verif_snapshot())),
+            let scripted = match (&mut script18, &mut script05, &mut script02) {
+                (Some(sc), _, _) => Some(sc.next(&s.ed.verif_snapshot())),
+                (_, Some(sc), _) => Some(sc.next(&s.ed.verif_snapshot())),
+                (_, _, Some(sc)) => Some(sc.next(&s.ed.verif_snapshot())),
                 _ => None,
             };
             let op = match scripted {
@@ -1533,6 +1542,7 @@ fn main() {
                     };
                     // the properties, evaluated directly on the real editor (one module per property)
                     oracle_c02::check(&mut out, &step);
+                    oracle_c04::check(&mut out, &step);
                     oracle_c05::check(&mut out, &step);
                     oracle_c06::check(&mut out, &step);
                     oracle_c17::after_step(&mut out, &step, &s, c17_queries, &mut c17_stats);
